@@ -36,10 +36,10 @@ ASSUMPTIONS = {
     'A1': 'target: usize is 64-bit (global size_of usize == 8); machine integers are machine integers (overflow is an obligation)',
     'A2': 'language invariant used as requires: slices are at most isize::MAX bytes long',
     'A3': "vstd's specifications of slices / Vec / Option / Result / copy_from_slice / mem::swap, plus assume_specification for Vec::capacity, Vec::with_capacity, Vec::into_boxed_slice, <[u8]>::into (ghost/vshim.rs)",
-    'A4': 'derive(PartialEq) is structural on Label/LabelType/PktType (R8); derived Clone returns an equal value (R9)',
+    'A4': 'derive(PartialEq) is structural on Label/LabelType/PktType (R8: unsafe impl Structural appended to the shim module); the derived Clone of Extension returns an extension with the same id and data (axiom_ext_clone)',
     'A5': 'user-supplied trait implementations satisfy the trait contracts (pure CRC calculator; memory contract; extension manager is a function of the id)',
     'A6': 'shims R1-R3 (to_be_bytes / from_be_bytes / try_into) are external_body with specs; each spec is proved by a Kani complete harness (kani/shims)',
-    'A7': 'Verus is run with --no-lifetime (internal error otherwise); exec code is borrow-checked by cargo check on /repo in the same run; ghost code uses no tracked state',
+    'A7': "Verus runs with its lifetime (borrow) checking on; additionally cargo check runs on /repo itself in the same run",
     'A8': 'the ghost library (ghost/vprops.rs) is the intended reading of ETSI TS 102 606 / RFC 5163 / CRC-32/MPEG-2 (anchored by the catalogue check value)',
     'A9': 'tools are sound: Verus 0.2026.09.13 + bundled Z3, rustc 1.98.1, Kani 0.68 / CBMC 6.11',
     'A10': 'no unsafe in the crate (grep on every run); panics are the only abnormal termination considered',
